@@ -31,6 +31,8 @@ for mid, d in sorted(src.items()):
     out = os.path.join(root, mid)
     shutil.rmtree(out, ignore_errors=True); os.makedirs(out)
     shutil.copy(os.path.join(d, 'patch.diff'), os.path.join(out, 'patch.diff'))
+    if os.path.exists(os.path.join(d, 'patch.orig.diff')):
+        shutil.copy(os.path.join(d, 'patch.orig.diff'), os.path.join(out, 'patch.orig.diff'))  # as delivered, before it was ported to the repaired tree
     demos = []
     for f in glob.glob(os.path.join(d, '**', '*_test.go'), recursive=True):
         rel = os.path.relpath(f, d).replace('/', '__')
